@@ -41,6 +41,23 @@ def impl_iter_interleaved(dag):
     return [ops.index(o) for o in p.values], [ops.index(o) for o in p.values], partial
 
 
+def impl_iter_shared_list(dag):
+    """the same DAG built by a caller that keeps ONE list for the parents and refills it for every node (and empties it at the end):
+    the DAG must have taken what it needs at `add_node` time"""
+    if REPO not in sys.path:
+        sys.path.insert(0, REPO)
+    from eudoxia.workload.pipeline import Pipeline
+    from eudoxia.utils import Priority
+    p = Pipeline("p", Priority.BATCH_PIPELINE)
+    ops, buf = [], []
+    for par in dag:
+        buf.clear()
+        buf.extend(ops[i] for i in par)
+        ops.append(p.new_operator(buf if buf else None))
+    buf.clear()
+    return [ops.index(o) for o in p.values], [sorted(ops.index(q) for q in o.parents) for o in ops]
+
+
 def check_dags(ctx, dags, drv, exhaustive_upto=None):
     n_div = 0
     for dag in dags:
@@ -65,6 +82,11 @@ def check_dags(ctx, dags, drv, exhaustive_upto=None):
         if o1 != order or o2 != order or any(sorted(pp) != list(range(k + 1)) for k, pp in enumerate(partial)):
             ctx.violations.append({"what": f"iteration of the DAG {dag} depends on earlier iterations: fresh {order}, after iterating during construction {o1}, "
                                            f"again {o2}, prefixes {partial}", "layer": "W", "dag": dag, "sig": {"clause": "iteration-repeatable"}})
+            return
+        o3, pars = impl_iter_shared_list(dag)
+        if o3 != order or pars != [sorted(x) for x in dag]:
+            ctx.violations.append({"what": f"the DAG {dag} built from a parents list that the caller re-uses afterwards iterates as {o3} (fresh lists: {order}) and "
+                                           f"records the parents {pars}", "layer": "W", "dag": dag, "sig": {"clause": "iteration-aliasing"}})
             return
         if r["iter"] != order and n_div < 1:
             n_div += 1
